@@ -1,3 +1,4 @@
+import RactorModel.Lemmas.GenAdmission
 import RactorModel.Extracted
 import RactorModel.Lemmas.AdmissionCore
 import RactorModel.Lemmas.AdmissionLate
@@ -473,6 +474,166 @@ theorem src_status_discriminants_start :
       some EarlyStep.stDraining, some EarlyStep.stStopping, some EarlyStep.stStopped) := by
   decide
 
+
+/-! ### Translator tie (rs2lean): kernel-checked equivalence between the definitions that
+`extract/rs2lean.py` regenerates from the CURRENT Rust source on every run
+(`RactorModel/Generated/*.lean`) and the hand-written model functions the theorems above are
+about. A semantic change of the Rust function changes the generated text and these stop checking. -/
+
+section XlateTie
+open Generated.Admission GenAdmission
+
+/-- `try_admit_message`, one iteration on the word `enc w` (pcs `aLoad`/`aCas` of the model):
+closed ⇒ `None`; else exchange `w` for `w` with one more ticket. -/
+theorem generated_try_admit_eq_model (enq : Except MessagingErr Unit) (w : Admission.Word)
+    (h : w.count + 1 < 2 ^ 62) :
+    ActorProperties.try_admit_message enq (st w)
+      = if w.closed then .done none
+        else .cas (enc w) (enc { w with count := w.count + 1 }) (some ()) := by
+  have hc := closed_bit w (by omega)
+  unfold ActorProperties.try_admit_message
+  simp only [st, hc]
+  rcases w with ⟨c, m, n⟩
+  cases c
+  · have : Rust.wAdd 64 (enc ⟨false, m, n⟩) 1 = enc ⟨false, m, n + 1⟩ := by
+      unfold Rust.wAdd enc; cases m <;> simp at h ⊢ <;> omega
+    simp [this]
+  · simp
+
+/-- `close_message_admission` (pc `dClose`): `fetch_or(CLOSED)` sets `closed`. -/
+theorem generated_close_admission_eq_model (enq : Except MessagingErr Unit) (w : Admission.Word)
+    (h : w.count < 2 ^ 62) :
+    ActorProperties.close_message_admission enq (st w) = st { w with closed := true } := by
+  simp [ActorProperties.close_message_admission, st, or_closed w h]
+
+/-- `send_drain_marker`, one iteration (pcs `mLoad`/`mCas`/`mEnq`): the exchange is attempted
+exactly under `Admission.markerCond`, sets `marker`, and the value returned on success is the
+outcome of the enqueue with its error mapped to `SendErr(())`. -/
+theorem generated_send_drain_marker_eq_model (enq : Except MessagingErr Unit) (w : Admission.Word)
+    (h : w.count < 2 ^ 62) :
+    ActorProperties.send_drain_marker enq (st w)
+      = if Admission.markerCond w then
+          .cas (enc w) (enc { w with marker := true }) (enq.mapError fun _ => MessagingErr.SendErr ())
+        else .done (.ok ()) := by
+  unfold ActorProperties.send_drain_marker Admission.markerCond
+  simp only [st, closed_bit w h, marker_bit w h, count_bits w h]
+  rcases w with ⟨c, m, n⟩
+  cases c <;> cases m <;> simp
+  by_cases hn : n = 0
+  · subst hn
+    simp [enc, consts.2.1, Rust.bor]
+  · simp [hn]
+
+/-- `MessageAdmission::drop` (pc `rel`): one ticket fewer, and the marker program is entered
+iff the word seen was closed with exactly this ticket outstanding. -/
+theorem generated_ticket_release_eq_model (enq : Except MessagingErr Unit) (w : Admission.Word)
+    (h : w.count < 2 ^ 62) (hpos : 0 < w.count) :
+    MessageAdmission.drop enq (st w)
+      = (st { w with count := w.count - 1 }, w.closed && w.count == 1) := by
+  unfold MessageAdmission.drop
+  simp only [st, closed_bit w h, count_bits w h]
+  rcases w with ⟨c, m, n⟩
+  simp only at h hpos
+  have hlt : enc ⟨c, m, n⟩ < 2 ^ 64 := by unfold enc; cases c <;> cases m <;> simp <;> omega
+  have hge : 0 < enc ⟨c, m, n⟩ := by unfold enc; simp only; omega
+  have h1 : Rust.wSub 64 (enc ⟨c, m, n⟩) 1 = enc ⟨c, m, n⟩ - 1 := by unfold Rust.wSub; omega
+  have h2 : enc ⟨c, m, n⟩ - 1 = enc ⟨c, m, n - 1⟩ := by unfold enc; simp only; omega
+  rw [h1, h2]
+  cases c <;> cases hd : decide (n = 1) <;> simp_all
+
+/-- the closure `drain` passes to `status.fetch_update` (pc `dStatus`): for a started actor
+(`status ≠ Unstarted`) exactly the model's `if status < stStopping then stDraining`. -/
+theorem generated_drain_status_update_eq_model (enq : Except MessagingErr Unit) (status : Nat) (hs : status ≠ 0) :
+    (ActorProperties.drain_status_update enq status).getD status
+      = if status < Admission.stStopping then Admission.stDraining else status := by
+  unfold ActorProperties.drain_status_update
+  simp only [ActorStatus.toNat, Admission.stStopping, Admission.stDraining, ne_eq, hs, not_false_eq_true,
+    decide_true, Bool.true_and]
+  by_cases h : status < 5 <;> simp [h]
+
+/-- the status test at the head of `send_message_unchecked` (pc `sStatus`) -/
+theorem generated_send_status_check_eq_model (enq : Except MessagingErr Unit) (status : ActorStatus) :
+    ActorProperties.send_rejects_status enq status = decide (status.toNat ≥ Admission.stDraining) := by
+  cases status <;> rfl
+
+theorem generated_status_discriminants :
+    (ActorStatus.toNat .Draining, ActorStatus.toNat .Stopping, ActorStatus.toNat .Stopped)
+      = (Admission.stDraining, Admission.stStopping, Admission.stStopped) := by decide
+
+/-- the bit layout `GenAdmission.enc` assumes is the one of the three source constants -/
+theorem generated_admission_constants :
+    MESSAGE_ADMISSION_CLOSED = 2 ^ 63 ∧ DRAIN_MARKER_SENT = 2 ^ 62 ∧ MESSAGE_ADMISSION_COUNT_MASK = 2 ^ 62 - 1 :=
+  GenAdmission.consts
+
+/-! the hand-written small-step model performs, at the pcs named, exactly the generated word operations -/
+section
+open Admission
+
+/-- pc `aLoad` of the model takes exactly the branch the generated `try_admit_message` takes on
+the encoded word. -/
+theorem model_admit_load_follows_generated (enq : Except MessagingErr Unit) (s : Shared) (f : Frame)
+    (rest : List Frame) (hpc : f.pc = .aLoad) (h : s.word.count + 1 < 2 ^ 62) :
+    stepThread s (f :: rest) =
+      match ActorProperties.try_admit_message enq (st s.word) with
+      | .done _ => some (finish s f .sendErr rest)
+      | .cas _ _ _ => some (s, { f with pc := .aCas s.word } :: rest) := by
+  rw [generated_try_admit_eq_model enq s.word h]
+  unfold stepThread
+  simp only [hpc]
+  cases s.word.closed <;> rfl
+
+/-- pc `aCas seen`, exchange succeeding: the word the model installs is the `new` word of the
+generated iteration (through `enc`). -/
+theorem model_admit_cas_installs_generated (enq : Except MessagingErr Unit) (s : Shared) (f : Frame)
+    (rest : List Frame) (hpc : f.pc = .aCas s.word) (hopen : s.word.closed = false)
+    (h : s.word.count + 1 < 2 ^ 62) :
+    ∃ s' st', stepThread s (f :: rest) = some (s', st') ∧
+      ActorProperties.try_admit_message enq (st s.word) = .cas (enc s.word) (enc s'.word) (some ()) := by
+  refine ⟨{ s with word := { s.word with count := s.word.count + 1 } }, { f with pc := .box } :: rest, ?_, ?_⟩
+  · unfold stepThread
+    simp only [hpc, ↓reduceIte]
+  · rw [generated_try_admit_eq_model enq s.word h]
+    simp [hopen]
+
+/-- pc `dClose`: the word the model installs is the one `close_message_admission` computes. -/
+theorem model_close_installs_generated (enq : Except MessagingErr Unit) (s : Shared) (f : Frame)
+    (rest : List Frame) (hpc : f.pc = .dClose) (h : s.word.count < 2 ^ 62) :
+    ∃ s' st', stepThread s (f :: rest) = some (s', st') ∧
+      ActorProperties.close_message_admission enq (st s.word) = st s'.word := by
+  refine ⟨{ s with word := { s.word with closed := true } }, { f with pc := .dStatus } :: rest, ?_, ?_⟩
+  · unfold stepThread
+    simp only [hpc]
+  · exact generated_close_admission_eq_model enq s.word h
+
+/-- pc `mLoad`: the marker program goes on to its exchange exactly when the generated
+`send_drain_marker` iteration does. -/
+theorem model_marker_load_follows_generated (enq : Except MessagingErr Unit) (s : Shared) (f : Frame)
+    (rest : List Frame) (ret : Option Res) (hpc : f.pc = .mLoad ret) (h : s.word.count < 2 ^ 62) :
+    stepThread s (f :: rest) =
+      match ActorProperties.send_drain_marker enq (st s.word) with
+      | .done _ => some (finish s f (mRet ret) rest)
+      | .cas _ _ _ => some (s, { f with pc := .mCas s.word ret } :: rest) := by
+  rw [generated_send_drain_marker_eq_model enq s.word h]
+  unfold stepThread
+  simp only [hpc]
+  cases markerCond s.word <;> rfl
+
+/-- pc `rel r` (ticket release): the word the model installs and its decision to enter the
+marker program are the generated `MessageAdmission::drop`'s. -/
+theorem model_release_follows_generated (enq : Except MessagingErr Unit) (s : Shared) (f : Frame)
+    (rest : List Frame) (r : Res) (hpc : f.pc = .rel r) (h : s.word.count < 2 ^ 62) (hpos : 0 < s.word.count) :
+    (MessageAdmission.drop enq (st s.word)).1 = st { s.word with count := s.word.count - 1 } ∧
+    stepThread s (f :: rest) =
+      (let s' := { s with word := { s.word with count := s.word.count - 1 } }
+       if (MessageAdmission.drop enq (st s.word)).2 then some (s', { f with pc := .mLoad (some r) } :: rest)
+       else some (finish s' f r rest)) := by
+  rw [generated_ticket_release_eq_model enq s.word h hpos]
+  refine ⟨rfl, ?_⟩
+  unfold stepThread
+  simp only [hpc]
+end
+end XlateTie
+
 end C07
 
 #print axioms C07.send_after_close_rejected
@@ -503,3 +664,17 @@ end C07
 #print axioms C07.unfixed_link_gate_drops_accepted_casts
 #print axioms C07.src_start_drain_gates
 #print axioms C07.src_status_discriminants_start
+-- rs2lean tie
+#print axioms C07.generated_try_admit_eq_model
+#print axioms C07.generated_close_admission_eq_model
+#print axioms C07.generated_send_drain_marker_eq_model
+#print axioms C07.generated_ticket_release_eq_model
+#print axioms C07.generated_drain_status_update_eq_model
+#print axioms C07.generated_send_status_check_eq_model
+#print axioms C07.generated_status_discriminants
+#print axioms C07.generated_admission_constants
+#print axioms C07.model_admit_load_follows_generated
+#print axioms C07.model_admit_cas_installs_generated
+#print axioms C07.model_close_installs_generated
+#print axioms C07.model_marker_load_follows_generated
+#print axioms C07.model_release_follows_generated
